@@ -146,13 +146,80 @@ def r3_analyze(ctx):
 
 
 def r4_select(ctx):
-    ctx.rule("C11.r4", "backward select joins the two branch preconditions", floor=1)
+    ctx.rule("C11.r4", "backward select: each branch operand is paired with its own branch condition; infeasible-branch shortcuts "
+                       "take the OTHER branch; the general case joins both", floor=4)
     infos = _stmts.statement_table(ctx.db)
     for fn in ctx.db.fns(ABS, cpk=NPT, name="exec"):
         info = _stmts.stmt_info_for(fn, infos)
         if info is None or info.name != "select_stmt":
             continue
         body = fn["body"]
+        sid = fn["params"][0]["id"]
+        decls = local_decls(body)
+        g = paths.guards(body)
+
+        def acc_of(e):
+            for x in walk(e):
+                if x.get("k") == "call" and is_ref(x.get("o")) and strip(x["o"]).get("id") == sid and callee(x):
+                    if callee(x)["name"] in ("left", "right", "cond"):
+                        return callee(x)["name"]
+            return None
+
+        def state_key(o):
+            o = deref(o)
+            if isinstance(o, dict) and o.get("k") == "mem":
+                return "field:" + o.get("n")
+            if isinstance(o, dict) and o.get("k") == "ref":
+                return "local:%s" % o.get("id")
+            return None
+
+        def cond_polarity(e):
+            """+1: stmt.cond(), -1: stmt.cond().negate()"""
+            if acc_of(e) != "cond":
+                return 0
+            return -1 if any(is_call(x, name="negate") for x in walk(e)) else 1
+        # (a) pairing inside every statement sequence
+        n_pairs = 0
+        for seq in [x for x in walk(body) if x.get("k") == "seq"]:
+            items = seq.get("b", [])
+            for i, st in enumerate(items):
+                if is_call(st, name="backward_assign") and len(st.get("a", [])) >= 2:
+                    which = acc_of(st["a"][1])
+                    sk = state_key(st.get("o"))
+                    pol = 0
+                    for nx in items[i + 1:]:
+                        if nx.get("k") == "call" and nx.get("op") == "+=" and state_key(nx.get("o")) == sk:
+                            pol = cond_polarity(nx["a"][0])
+                            break
+                    want = {"left": 1, "right": -1}.get(which, 0)
+                    n_pairs += 1
+                    if want != 0 and pol == want:
+                        ctx.ok("select: %s operand paired with %s" % (which, "cond" if pol > 0 else "not cond"), fn, st)
+                    else:
+                        ctx.bad("backward select pulls the post-state back through the `%s` operand but then assumes %s: the operand "
+                                "of one branch is combined with the condition of the other" %
+                                (which, {1: "cond", -1: "cond.negate()", 0: "no branch condition"}[pol]), fn, st, sig="select-pairing:%s" % which)
+                    # (b) shortcut guard: under V.is_bottom() with V = inv + cond^p the pair must be the other branch
+                    for c, gp in g.get(id(st), ()):
+                        if isinstance(c, tuple) or not gp:
+                            continue
+                        cc = strip(c)
+                        if is_call(cc, name="is_bottom") and is_ref(cc.get("o")):
+                            vid = strip(cc["o"]).get("id")
+                            vpol = 0
+                            for y in walk(body):
+                                if y.get("k") == "call" and y.get("op") == "+=" and is_ref(y.get("o")) and strip(y["o"]).get("id") == vid:
+                                    vpol = cond_polarity(y["a"][0])
+                            if vpol != 0:
+                                if want == -vpol:
+                                    ctx.ok("select shortcut: branch with %s infeasible -> use the other branch" % ("cond" if vpol > 0 else "not cond"), fn, st)
+                                else:
+                                    ctx.bad("backward select: when the %s-branch is infeasible (`%s`) the precondition is computed "
+                                            "through the `%s` operand - the operand of the infeasible branch" %
+                                            ("then" if vpol > 0 else "else", src(cc), which), fn, st, sig="select-shortcut:%s" % which)
+        if n_pairs < 4:
+            ctx.bad("backward select must handle both operands in the general case and in both shortcuts (found %d backward_assign)" % n_pairs,
+                    fn, body, sig="select-cases")
         asg = [n for n in walk(body) if n.get("k") == "call" and n.get("op") == "=" and is_field(n.get("o"), "m_pre")]
         if asg and is_call(strip_move(asg[-1]["a"][0]), op="|"):
             ctx.ok("m_pre = pre_then | pre_else", fn, asg[-1])
